@@ -50,6 +50,10 @@ Definition zselect (code : cmp_code) (o : opts) (a b : zparr) : res zparr := @ps
 Definition zlead_exponent g r (p : zparr) := @lead_exponent ZO g r p.
 Definition zproxy_raw g r (p : zparr) : seq nat := @proxy_raw ZO g r p.
 Definition zsortable_proxy g r (p : zparr) : seq nat := @sortable_proxy ZO g r p.
+Definition zargmin g r (p : zparr) : nat := @pargmin ZO g r p.
+Definition zargmax g r (p : zparr) : nat := @pargmax ZO g r p.
+Definition zamin_pos g r (p : zparr) : nat := @pamin_pos ZO g r p.
+Definition zamax_pos g r (p : zparr) : nat := @pamax_pos ZO g r p.
 Definition zlead_coefficient g r (p : zparr) : seq Z := @lead_coefficient ZO g r p.
 
 (* ---- queries (C19) -------------------------------------------------------------------------- *)
